@@ -81,11 +81,16 @@ class RecBuilder:
         return {"events": list(self.events)}
 
 
+class StubToken(Token):
+    """A Token that can carry the harness's `kinds` even if Token itself is given __slots__."""
+    kinds = frozenset()
+
+
 def tok(kinds, line=1):
     if "EOF" in kinds:
-        t = Token("", {"line": line})
+        t = StubToken("", {"line": line})
     else:
-        t = Token(GherkinLine("  stub line %d\n" % line, line), {"line": line})
+        t = StubToken(GherkinLine("  stub line %d\n" % line, line), {"line": line})
     t.kinds = set(kinds)
     return t
 
